@@ -60,6 +60,25 @@ def items_of(spec):
     return its
 
 
+def build_replaced(spec, missing):
+    """The same partial specification reached the other way round: a FULLY specified System on which every table that has
+    a missing item is then replaced by a fresh table holding only the items that are not missing (and `domain = None`)."""
+    import pyPRISM
+    from pyPRISM.core.Density import Density
+    from pyPRISM.core.Diameter import Diameter
+    from pyPRISM.core.PairTable import PairTable
+    types = spec['types']
+    s = build_partial(spec, set())
+    part = build_partial(spec, missing)
+    kinds = set(m.split(':')[0] for m in missing)
+    if 'domain' in kinds:
+        s.domain = None
+    for tab in ('density', 'diameter', 'potential', 'closure', 'omega'):
+        if tab in kinds:
+            setattr(s, tab, getattr(part, tab))        # a fresh table object of the right class, partly filled
+    return s
+
+
 def build_partial(spec, missing):
     import pyPRISM
     types = spec['types']
@@ -115,15 +134,16 @@ def case_missing(rec, c):
     missing = set(c['missing'])
     install_spy()
     rec.state()
-    for how in ('createPRISM', 'solve'):
-        s = build_partial(spec, missing)
+    for how in ('createPRISM', 'solve') + (('createPRISM/replaced', 'solve/replaced') if c.get('replaced') else ()):
+        s = build_replaced(spec, missing) if how.endswith('/replaced') else build_partial(spec, missing)
+        how = how.split('/')[0] if not how.endswith('/replaced') else how
         Spy.constructed = 0
         Spy.cost_calls = 0
         rec.trans()
         try:
             with warnings.catch_warnings():
                 warnings.simplefilter('ignore')
-                if how == 'createPRISM':
+                if how.startswith('createPRISM'):
                     s.createPRISM()
                 else:
                     s.solve(method='krylov', options={'maxiter': 3, 'disp': False})
@@ -525,6 +545,10 @@ def run(rec, tier, seed):
     for r in range(len(its2) + 1):
         for sub in itertools.combinations(its2, r):
             miss.append({'kind': 'missing', 'types': TYPES2, 'missing': list(sub)})
+    # the same partial systems reached by REPLACING tables of a complete System (one and two missing items)
+    for r in (1, 2):
+        for sub in itertools.combinations(its2, r):
+            miss.append({'kind': 'missing', 'types': TYPES2, 'missing': list(sub), 'replaced': True})
     its1 = items_of(base_spec(['A']))
     for r in range(len(its1) + 1):
         for sub in itertools.combinations(its1, r):
